@@ -9,12 +9,12 @@ import collections
 import faulthandler
 import hashlib
 import json
-import multiprocessing
 import os
 import subprocess
 import sys
 import time
-from concurrent.futures import ProcessPoolExecutor
+
+from .pool import forked
 
 HERE = os.path.dirname(os.path.dirname(os.path.abspath(__file__)))
 # where replays/ and evidence/ are written (the self-test redirects them to a scratch directory)
@@ -96,31 +96,7 @@ def _chunk(args):
 def run_batch(prop, verif_seed, runs, workers, cap, banned=(), start=0, tier='quick'):
     tasks = [(prop, verif_seed, s, min(CHUNK, start + runs - s), tuple(banned), tier)
              for s in range(start, start + runs, CHUNK)]
-    ctx = multiprocessing.get_context('fork')
-    out = []
-    t0 = time.time()
-    if workers <= 1:
-        for t in tasks:
-            out.append(_chunk(t))
-        return out
-    ex = ProcessPoolExecutor(max_workers=workers, mp_context=ctx)
-    try:
-        futs = [ex.submit(_chunk, t) for t in tasks]
-        for f in futs:
-            left = cap - (time.time() - t0)
-            if left <= 0:
-                raise TimeoutError('wall-clock safety cap of %ds reached' % cap)
-            out.append(f.result(timeout=left))
-    except BaseException:
-        for p in list(getattr(ex, '_processes', {}).values()):
-            try:
-                p.kill()
-            except Exception:
-                pass
-        ex.shutdown(wait=False, cancel_futures=True)
-        raise
-    ex.shutdown()
-    return out
+    return forked(_chunk, tasks, workers, cap)
 
 
 # ------------------------------------------------------------------------------------ known findings
@@ -150,14 +126,15 @@ def do_replay(prop, path, quiet=False):
     if rp['property'] != prop:
         eprint('HARNESS-ERROR: replay file is for %s' % rp['property'])
         return 2
-    w = replay_ops(prop, rp['ops'])
+    w = replay_ops(prop, rp['ops'], rp.get('prelude') or ())
     want = rp.get('violation') or {}
     if w.violations:
         v = w.violations[0]
         same_class = (v['clause'], v['culprit']) == (want.get('clause'), want.get('culprit'))
         if not quiet:
-            print('replayed %d ops: %s clause=%s culprit=%s step=%s digest=%s%s' % (
-                len(rp['ops']), v['property'], v['clause'], v['culprit'], v['step'], digest_of(w)[:16],
+            print('replayed %d ops%s: %s clause=%s culprit=%s step=%s digest=%s%s' % (
+                len(rp['ops']), (' after a prelude of %d earlier runs' % len(rp['prelude'])) if rp.get('prelude') else '',
+                v['property'], v['clause'], v['culprit'], v['step'], digest_of(w)[:16],
                 '' if same_class else '  (different class than recorded: %s/%s)' % (want.get('clause'), want.get('culprit'))))
             print('detail: ' + json.dumps(v['detail'], default=repr))
             print('VIOLATION property=%s replay=%s' % (prop, path))
@@ -184,10 +161,15 @@ def det_digest(prop, verif_seed, n):
     return h.hexdigest()
 
 
+def _det_twice(args):
+    prop, verif_seed, n = args
+    return det_digest(prop, verif_seed, n), det_digest(prop, verif_seed, n)
+
+
 def determinism_check(prop, verif_seed, n):
-    """Same seeds twice in this process and once in a fresh interpreter under another hash seed."""
-    a = det_digest(prop, verif_seed, n)
-    b = det_digest(prop, verif_seed, n)
+    """Same seeds twice in one (forked) process and once in a fresh interpreter under another
+    hash seed.  Nothing of it runs in the parent, which must stay free of library state."""
+    a, b = forked(_det_twice, [(prop, verif_seed, n)], 1, 3600)[0]
     env = dict(os.environ)
     env['PYTHONHASHSEED'] = '4242'
     p = subprocess.run([sys.executable, '-m', 'fxsim.cli', prop, '--det-digest', str(n)], cwd=HERE, env=env,
@@ -197,10 +179,16 @@ def determinism_check(prop, verif_seed, n):
             'digest': a, 'ok': a == b == c}
 
 
+def _replay_quiet(args):
+    prop, path = args
+    return do_replay(prop, path, quiet=True)
+
+
 # ------------------------------------------------------------------------------------ main check
 def check(prop, tier, args):
     from .run import DEFAULT_SEED
-    from .minimise import minimise, vclass, jsonable
+    from .minimise import minimise, minimise_isolated, minimise_with_prelude, vclass, jsonable
+    from .run import chunk_ops
     t0 = time.time()
     verif_seed = int(os.environ.get('VERIF_SEED', DEFAULT_SEED))
     conf = dict(TIERS[tier])
@@ -222,7 +210,7 @@ def check(prop, tier, args):
         if k['property'] != prop or not k.get('example_replay') or os.environ.get('FXSIM_NO_EXAMPLES'):
             continue
         path = os.path.join(HERE, k['example_replay'])
-        rc = do_replay(prop, path, quiet=True)
+        rc = forked(_replay_quiet, [(prop, path)], 1, 600)[0]
         if k['status'] == 'known':
             if rc == 1:
                 known_lines.append('KNOWN-FINDING: property=%s %s' % (prop, k['what']))
@@ -240,8 +228,10 @@ def check(prop, tier, args):
     # 2. determinism sample
     det = determinism_check(prop, verif_seed, conf['det'])
     if not det['ok']:
-        eprint('HARNESS-ERROR: determinism self-test failed: %r' % (det,))
-        return 2
+        # Either the harness is broken, or the library keeps process-global mutable state that
+        # leaks from one run into the next (then the search below normally shows it as a plain
+        # violation inside a single run).  Decided after the search: never a pass.
+        eprint('warning: determinism self-test failed: %r' % (det,))
 
     # 3. the seeded search
     banned = set()
@@ -258,22 +248,47 @@ def check(prop, tier, args):
         if cls in handled_classes:
             continue
         handled_classes.add(cls)
-        small, v, dg, execs = minimise(prop, item['ops'], item['violation'])
-        if v is None:
-            eprint('HARNESS-ERROR: violation of run %d did not reproduce from its own op list' % item['i'])
-            return 2
+        small, v, dg, execs = minimise_isolated(prop, item['ops'], item['violation'])
         name = '%s-%d-%d.json' % (prop, verif_seed, item['i'])
         path = os.path.join('replays', name)
-        rp = {'property': prop, 'verif_seed': verif_seed, 'run_index': item['i'],
-              'ops': jsonable(small), 'ops_original': jsonable(item['ops']),
-              'violation': jsonable({k2: v[k2] for k2 in ('clause', 'culprit', 'step', 'depth', 'op', 'detail')}),
-              'digest': dg, 'minimiser_executions': execs}
         os.makedirs(os.path.join(OUT, 'replays'), exist_ok=True)
-        with open(os.path.join(OUT, path), 'w') as f:
-            json.dump(rp, f, indent=1)
-        rc, out = replay_in_subprocess(prop, os.path.join(OUT, path))
+
+        def write(ops, viol, prelude=None, note=None):
+            rp = {'property': prop, 'verif_seed': verif_seed, 'run_index': item['i'],
+                  'ops': jsonable(ops), 'ops_original': jsonable(item['ops']),
+                  'violation': jsonable({k2: viol[k2] for k2 in ('clause', 'culprit', 'step', 'depth', 'op', 'detail')}),
+                  'digest': dg, 'minimiser_executions': execs}
+            if prelude:
+                rp['prelude'] = jsonable(prelude)
+                rp['note'] = note
+            with open(os.path.join(OUT, path), 'w') as f:
+                json.dump(rp, f, indent=1)
+            return replay_in_subprocess(prop, os.path.join(OUT, path))
+
+        rc, out = (2, 'minimiser lost the violation') if v is None else write(small, v)
         if rc != 1:
-            eprint('HARNESS-ERROR: minimised replay %s does not reproduce in a fresh process:\n%s' % (path, out))
+            # the minimised program does not fail on its own: try the run exactly as it was
+            v = item['violation']
+            small = item['ops']
+            rc, out = write(small, v)
+        if rc != 1:
+            # the run does not fail on its own either: it depends on state the library carried over
+            # from the earlier runs of its chunk (every chunk runs in its own forked process)
+            first = (item['i'] // CHUNK) * CHUNK
+            lists = forked(chunk_ops, [(prop, verif_seed, first, item['i'], tuple(sorted(banned)), tier)], 1, 3600)[0]
+            prelude, small = lists[:-1], lists[-1]
+            note = ('this violation needs process-global state left behind by earlier runs in the same '
+                    'process; the prelude holds those runs (each executed in its own world)')
+            rc, out = write(small, v, prelude, note)
+            if rc == 1:
+                small, prelude, e2 = minimise_with_prelude(prop, small, prelude, v)
+                execs += e2
+                rc, out = write(small, v, prelude, note)
+                print('violation of run %d depends on %d earlier run(s) of its process (library state leaks between runs)'
+                      % (item['i'], len(prelude)))
+        if rc != 1:
+            eprint('HARNESS-ERROR: violation of run %d does not reproduce in a fresh process, neither alone nor '
+                   'after the earlier runs of its chunk:\n%s' % (item['i'], out))
             return 2
         k = match_known(v, known, 'known')
         if k is not None:
@@ -310,6 +325,9 @@ def check(prop, tier, args):
                 exit_code = 1
                 break
 
+    if not det['ok'] and exit_code == 0:
+        eprint('HARNESS-ERROR: determinism self-test failed and the search found no violation: %r' % (det,))
+        return 2
     wall = time.time() - t0
     write_evidence(prop, tier, verif_seed, conf, workers, agg, det, wall, n_viol_runs, reported, known_lines,
                    extra_batches)
@@ -348,7 +366,7 @@ PROBES = {
     'C04': ['c04_write_judged', 'c04_callback_set_judged', 'probe_ovf_and_udf_in_one_write',
             'probe_flag_raising_write', 'probe_inaccuracy_propagated', 'probe_reset_of_raised_flag',
             'register_write', 'fault_F3_fired', 'fault_F4_fired'],
-    'C10': ['c10_hop_judged', 'c10_hop_inexact_or_out_of_range', 'c10_route_resize', 'c10_route_resize_dtype',
+    'C10': ['c10_hop_judged', 'c10_hop_inexact_or_out_of_range', 'c10_hop_all_codes_of_source_format', 'c10_hop_out_of_domain', 'c10_route_resize', 'c10_route_resize_dtype',
             'c10_route_like_kw', 'c10_route_like_method', 'c10_route_ctor_from', 'c10_route_set_from_call',
             'c10_route_set_from_set_val', 'c10_route_equal', 'c10_route_setitem_from',
             'fault_F3_fired', 'fault_F5_template_flip'],
